@@ -1,7 +1,17 @@
 #!/bin/bash
 # usage: try_seed.sh <patch> <check ids...>  -- applies a seeded change to /repo, runs the quick checks, reverts.
+# With TRY_IN_WORKTREE=1 the change is applied to a scratch worktree of /repo instead (VERIF_REPO points the
+# checks at it), for when something else is reading /repo's working tree at the same time.
 patch="$1"; shift
-cd /repo && git apply "$patch" || { echo "patch does not apply to /repo"; exit 2; }
+if [ -n "$TRY_IN_WORKTREE" ]; then
+  wt=/tmp/tryrepo-$$
+  git -C /repo worktree add --detach "$wt" HEAD -q || exit 2
+  trap 'git -C /repo worktree remove --force "$wt"; git -C /repo worktree prune' EXIT
+  git -C "$wt" apply "$patch" || { echo "patch does not apply"; exit 2; }
+  export VERIF_REPO="$wt"
+else
+  cd /repo && git apply "$patch" || { echo "patch does not apply to /repo"; exit 2; }
+fi
 cd /verif
 for c in "$@"; do
   s=$(date +%s)
@@ -9,6 +19,6 @@ for c in "$@"; do
   e=$(date +%s)
   echo "== $c exit=$r $((e-s))s: $(echo "$out" | grep -m1 'violation detail' | cut -c1-220)"
 done
-cd /repo && git checkout -- .
+[ -z "$TRY_IN_WORKTREE" ] && { cd /repo && git checkout -- .; }
 rm -f /verif/replays/*.json /verif/replays/C19-*
 cd /verif && git checkout -- evidence 2>/dev/null
